@@ -7,7 +7,7 @@
    SPEC Pratt.v: precedence climbing written from the property's wording. *)
 From Coq Require Import List Arith Bool.
 Import ListNotations.
-Require Import OpTable Pratt.
+Require Import OpTable Pratt PrecOk.
 
 (* yield: for ANY table and ANY token sequence, whatever tree the loop returns
    reads back, in order, as exactly the tokens it consumed (no operator invented,
@@ -17,12 +17,43 @@ Theorem C02_yield : forall tb toks k sf t e,
 Proof. exact run2_yield. Qed.
 Print Assumptions C02_yield.
 
+(* precedence and associativity: for ANY table and ANY token sequence (no bound on either) the tree the
+   loop returns is well-formed in the sense of PrecOk.pok: at every infix node the operators on the right
+   spine of the left operand sit in tighter rows (or the same row when it is left-associative), those on the
+   left spine of the right operand sit in tighter rows (or the same row when it is right-associative), so that
+   operators of a non-associative row are never chained; the operand of a prefix (postfix) node has only
+   operators of tighter rows on its left (right) spine.  Rows are found by the kind of node, first row first. *)
+Theorem C02_precedence_and_associativity : forall tb toks k sf t e,
+  main2 tb toks k (MK [] [] 0 0 0) = Some sf -> finish sf = Some (t, e) -> pok tb t = true.
+Proof. exact run2_pok. Qed.
+Print Assumptions C02_precedence_and_associativity.
+Corollary C02_loop_respects_precedence : forall tb toks t e, loop tb toks = Some (t, e) ->
+  pok tb t = true /\ yield t = firstn e toks.
+Proof.
+  intros tb toks t e H. unfold loop in H. destruct (main2 tb toks (length toks + 1) (MK [] [] 0 0 0)) as [sf|] eqn:E; [|discriminate].
+  split; [exact (run2_pok _ _ _ _ _ _ E H) | exact (run2_yield _ _ _ _ _ _ E H)].
+Qed.
+Print Assumptions C02_loop_respects_precedence.
+(* the statement is not vacuous and the judgement discriminates: on 12 * 34 ^ 56 ^ 78 - 90 the loop returns
+   ((12 * (34 ^ (56 ^ 78))) - 90), which is well-formed, while the other groupings of the same tokens are not *)
+Example C02_pok_accepts_and_rejects :
+  loop tbA [TOpd 12; TOp STAR; TOpd 34; TOp HAT; TOpd 56; TOp HAT; TOpd 78; TOp MINUS; TOpd 90]
+    = Some (Inf (Inf (Opd 12) STAR (Inf (Opd 34) HAT (Inf (Opd 56) HAT (Opd 78)))) MINUS (Opd 90), 9)
+  /\ pok tbA (Inf (Inf (Opd 12) STAR (Inf (Opd 34) HAT (Inf (Opd 56) HAT (Opd 78)))) MINUS (Opd 90)) = true
+  /\ pok tbA (Inf (Inf (Opd 12) STAR (Inf (Inf (Opd 34) HAT (Opd 56)) HAT (Opd 78))) MINUS (Opd 90)) = false
+  /\ pok tbA (Inf (Inf (Inf (Opd 12) STAR (Opd 34)) HAT (Inf (Opd 56) HAT (Opd 78))) MINUS (Opd 90)) = false
+  /\ pok tbA (Inf (Opd 12) STAR (Inf (Inf (Opd 34) HAT (Inf (Opd 56) HAT (Opd 78))) MINUS (Opd 90))) = false
+  /\ pok tb4 (Inf (Inf (Opd 1) MINUS (Opd 2)) MINUS (Opd 3)) = false
+  /\ pok tb4 (Inf (Opd 1) MINUS (Inf (Opd 2) MINUS (Opd 3))) = false
+  /\ pok tbA (Pre MINUS (Post (Opd 1) PCT)) = false /\ pok tbA (Post (Pre MINUS (Opd 1)) PCT) = true.
+Proof. vm_compute. repeat split; reflexivity. Qed.
+
 (* the loop returns the tree and the extent of the reference (precedence, associativity,
    non-chaining of non-associative rows, prefix/postfix attachment, longest run):
    proved here for ALL token strings up to the stated length over four tables that
    exercise every kind of row and spellings shared between prefix, infix and postfix rows.
-   (Finite statements, decided by computation inside the kernel; the unbounded
-   equivalence loop = reference is not proved — see DESIGN.md.) *)
+   (Finite statements, decided by computation inside the kernel; the unbounded part of
+   "the tree dictated by precedence and associativity" is C02_precedence_and_associativity above.) *)
 Theorem C02_reference_arithmetic_table : forall w, In w (all_toks alphaA 6) -> same (pratt tbA w) (loop tbA w) = true.
 Proof. exact (agree_on_forall tbA alphaA 6 pratt_eq_loop_A). Qed.
 Print Assumptions C02_reference_arithmetic_table.
